@@ -13,7 +13,8 @@ RULE = ('send((generator, size)) with an instrumented generator that counts pull
         'block size / stmin. After EVERY process() call: pulls <= bytes already emitted + one frame and pulls <= size. Oracle: generator '
         'long enough -> the wire carries exactly the extracted Coq reference segmentation of the first `size` values and nothing beyond '
         'them is pulled; generator short -> BadGeneratorError exactly once, request failed, never completed as a shorter or padded '
-        'message (the bytes on the wire are a strict prefix announcing the declared size). Replayed on the extracted model.')
+        'message (the bytes on the wire are a strict prefix announcing the declared size). Replayed on the extracted model.'
+        ' (blocking) blocking_send=True with send(send_timeout=0): nothing is pulled inside send(), afterwards the pulls follow the emitted bytes.')
 ASSUME = ['user generators yield ints 0..255 and do not raise']
 
 
@@ -61,7 +62,71 @@ def run_one(rng, inst, size, have, fill, bs):
     return pr, trace
 
 
+def blocking_lazy_run(rng):
+    """blocking_send=True: send((generator, size), send_timeout=0) returns at once with BlockingSendTimeout and the request stays
+    queued; nothing may have been pulled yet, and afterwards the pull count follows the emitted bytes exactly as without blocking."""
+    import isotp
+    tx_dl = rng.choice([8, 12, 64])
+    mode = rng.choice(['Normal_11bits', 'Extended_29bits'])
+    a = rand_address(rng, mode)
+    plen = 1 if mode != 'Normal_11bits' else 0
+    params = {'tx_data_length': tx_dl, 'stmin': 0, 'blocking_send': True}
+    if tx_dl > 8:
+        params['can_fd'] = True
+    inst = {'txa': a, 'rxa': None, 'params': params}
+    rid, ext, pfx = reach(inst)
+    size = rng.choice([tx_dl * 3, 200, 1000])
+    pulled = [0]
+
+    def g():
+        for i in range(size):
+            pulled[0] += 1
+            yield i & 0xFF
+    sent, inbox = [], []
+    layer = isotp.TransportLayerLogic(rxfn=lambda: inbox.pop(0) if inbox else None, txfn=sent.append, address=make_layer_address(inst), params=dict(params))
+    fails = []
+    try:
+        layer.send((g(), size), send_timeout=0)
+        out = 'returned'
+    except isotp.BlockingSendTimeout:
+        out = 'timeout'
+    except Exception as e:
+        out = 'other:' + type(e).__name__
+    if out != 'timeout':
+        fails.append(('C17:blocking-send-outcome', 'send(send_timeout=0) with nobody processing: %s' % out))
+    if pulled[0] != 0:
+        fails.append(('C17:pulled-ahead-of-emission', 'blocking_send: %d values pulled inside send() before any frame was built (size %d)' % (pulled[0], size)))
+    trace = []
+    for step in range(400):
+        layer.process()
+        emitted = 0
+        for m_ in sent:
+            d = bytes(m_.data)[plen:]
+            t = d[0] >> 4
+            emitted += (len(d) - (2 if d[1] or d[0] & 0xF else 6)) if t == 1 else (len(d) - 1 if t == 2 else 0)
+        trace.append((pulled[0], emitted))
+        if pulled[0] > emitted + (tx_dl - 1 - plen) and not fails:
+            fails.append(('C17:pulled-ahead-of-emission', 'blocking_send: %d values pulled, %d payload bytes emitted (frame capacity %d)' % (pulled[0], emitted, tx_dl - 1 - plen)))
+        if not layer.transmitting():
+            break
+        if step % 3 == 0:
+            inbox.append(isotp.CanMessage(arbitration_id=rid, data=pfx + bytes([0x30, rng.choice([1, 2]), 0]), extended_id=bool(ext)))
+    return fails, {'inst': inst, 'size': size, 'trace': trace[:8]}
+
+
 def run_shard(campaign, shard, nshards, seed, tier):
+    if campaign == 'blocking':
+        part = Part()
+        rng = random.Random('%s/%s/%s' % (seed, campaign, shard))
+        for _ in range((40 if tier != 'thorough' else 2000) // nshards + 1):
+            fails, info = blocking_lazy_run(rng)
+            part.d['evaluations'] += 1
+            part.distinct(info)
+            part.hist('blocking_size', info['size'])
+            if fails:
+                part.violation('oracle', campaign, fails[0][0], fails[0][1], {'scenario': 'blocking_send generator', 'info': info})
+            part.sample(info)
+        return part.result()
     part = Part()
     rng = random.Random('%s/%s/%s' % (seed, campaign, shard))
     quick = tier != 'thorough'
@@ -142,4 +207,5 @@ def run_shard(campaign, shard, nshards, seed, tier):
 
 def run(ctx):
     run_sharded(ctx, 'C17', 'generator')
+    run_sharded(ctx, 'C17', 'blocking')
     return RULE, ASSUME
